@@ -13,16 +13,9 @@ OPS = 'tracklib.core.operators'
 UT = 'tracklib.core.utils'
 
 EXPLANATION = (
-    "Static analysis of the expression evaluator: the precedence table and scan direction of makeRPN (order "
-    "constraints, right-to-left split at depth 0 => left associativity, parentheses); for each of + - * / ^ < > the "
-    "kernel expression of the operator class reached through the feature-feature, feature-scalar and scalar-feature "
-    "table entries (delegations and lambdas composed) and the scalar-scalar arm must all be the Python operator of "
-    "that name with operands in source order; D, I, D2 and the pointwise functions against their documented "
-    "definitions; NaN-skipping aggregates with a count co-updated with the accumulator; min/max/argmin/argmax scans; "
-    "median-style siblings agree on the order statistic; the '=' arm stores for an existing target, reads the source "
-    "before deleting the target, and removes only '#' temporaries; Track.operate passes arguments in signature order.")
+    "Static analysis by interpretation of the source (tlint.orders walks the AST of Track.operate, the evaluator, makeRPN and the operator classes; nothing is imported or executed by CPython): about 560 expression trees over features holding zeros, negatives, equal values, NaN and tiny values are evaluated through the interpreted evaluator and compared with the same tree under ordinary arithmetic with the documented operator definitions; assignments must store under the left-hand name and change nothing else; without '=' the track must be left as it was; operator objects applied directly must give the values of the expression.")
 ASSUMPTIONS = ["numeric equality with real arithmetic for all trees/vectors is not decided; only kernels, parse order and the assignment arm are"]
-TECHNIQUE = "table/sibling agreement with kernel extraction by symbolic walking (F5/F2), sign-case domains (F4), co-update path rule (F6), ordering of effects (F6)"
+TECHNIQUE = "abstract interpretation of Track.operate(expression), makeRPN, the rewriting passes and the operator classes by the checker's AST interpreter on families of expression trees (every operator pair in both tree shapes, the four operand-kind arms, every documented function, unary minus, assignments, operator objects), compared with ordinary arithmetic computed by the checker (bounded case domain)"
 
 SYMS = ['+', '-', '*', '/', '^', '>', '<']
 
